@@ -274,8 +274,17 @@ func copyTree(src, dst, variant string, rnd *hx.Rand) {
 	})
 }
 
-func runCorpus(repo, work string, rnd *hx.Rand, variants, repopkgs, only string, vfrac int) {
+func runCorpus(repo, work string, rnd *hx.Rand, variants, repopkgs, only string, vfrac int, vers string) {
 	tds := enumerateTestdata(repo, only)
+	if vers != "" {
+		var sel []tdDir
+		for _, d := range tds {
+			if (strings.HasPrefix(vers, "!") && d.ver != vers[1:]) || d.ver == vers {
+				sel = append(sel, d)
+			}
+		}
+		tds = sel
+	}
 	stat("testdata_dirs", len(tds))
 	// checks whose source builds suggested fixes (scan of the analyzer's own files)
 	fixChecks := map[string]bool{}
